@@ -12,6 +12,8 @@ from .cx import (Vec, Opaque, Obj, NDArr, Store, ExcVal, Closure, LibFn, ModRef,
 
 TABLE = {}
 USED = set()
+# physical constants: positive real symbols (their numerical values are irrelevant for the contracts)
+CONSTS = {'sp.constants.mu_0': z3.Real('MU_0'), 'sp.constants.epsilon_0': z3.Real('EPSILON_0')}
 
 
 def reg(*names):
